@@ -215,7 +215,31 @@ where
         if let TyKind::Adt(adt_id, _) = ty {
             self.record(*adt_id);
         }
-        self.ws.db().impl_provided_for(auto_trait_id, ty)
+        let provided = self.ws.db().impl_provided_for(auto_trait_id, ty);
+        if provided {
+            // The impl that suppresses the auto impl need not be among the impls
+            // `impls_for_trait` reports for the goal's own parameters (`impl !Send for
+            // Foo<u16>` suppresses the auto impl for `Foo<u8>` as well), so it has
+            // to be recorded here: ask for the impls of the auto trait for an
+            // unconstrained self type.
+            let interner = self.interner();
+            let binders = CanonicalVarKinds::from_iter(
+                interner,
+                Some(CanonicalVarKind::new(
+                    VariableKind::Ty(TyVariableKind::General),
+                    UniverseIndex::ROOT,
+                )),
+            );
+            let self_ty: Ty<I> =
+                TyKind::BoundVar(BoundVar::new(DebruijnIndex::INNERMOST, 0)).intern(interner);
+            let parameters = [GenericArgData::Ty(self_ty).intern(interner)];
+            let impl_ids = self
+                .ws
+                .db()
+                .impls_for_trait(auto_trait_id, &parameters, &binders);
+            self.record_all(impl_ids);
+        }
+        provided
     }
 
     fn well_known_trait_id(
